@@ -49,11 +49,12 @@ def judge(rec, opts):
 def _record_traces(args):
     """Worker: render the records of one ndjson byte range with the scope recorder on; return trace lines."""
     import json
+    import os
 
     from liquid2 import DictLoader
 
     from . import replay, scopetrace
-    path, start, end, base = args
+    path, start, end, base, tier = args
     out = []
     with open(path, "rb") as fd:
         fd.seek(start)
@@ -71,7 +72,8 @@ def _record_traces(args):
             except Exception:  # noqa: BLE001
                 continue
             data = replay.layer(rec["data"][0])
-            for mode in ("sync", "async"):
+            # (both twins for the focuses about scopes; the others exercise unwinding, which the twins share)
+            for mode in (("sync", "async") if base in ("scopes", "lambda") or tier == "thorough" else ("sync",)):
                 ev, raised = scopetrace.record(t, dict(data), mode)
                 out.append(json.dumps({"id": f"{base}-{start}-{n}-{mode}", "events": ev, "raised": raised, "src": templates["main"][:300]}, ensure_ascii=True))
     return out
@@ -110,7 +112,7 @@ def scope_traces(chk: Check, tier: str) -> None:
                         fd.readline()
                         cuts.append(min(fd.tell(), size))
                 cuts.append(size)
-                jobs = [(str(path), a, b, name) for a, b in zip(cuts, cuts[1:]) if b > a]
+                jobs = [(str(path), a, b, name, tier) for a, b in zip(cuts, cuts[1:]) if b > a]
                 lines = []
                 with ProcessPoolExecutor(workers()) as ex:
                     for part in ex.map(_record_traces, jobs):
